@@ -247,6 +247,8 @@ pub fn generate(run_seed: u64) -> Scenario {
             }
         }
         d.into_bytes()
+    } else if wl.chance(1, 7) {
+        gen_micro_doc(&mut wl)
     } else if wl.chance(1, 4) {
         gen_doc_from_seeds(&mut wl, target, &p.mix, false)
     } else {
@@ -401,7 +403,20 @@ pub fn generate(run_seed: u64) -> Scenario {
                         ops.push(Op::ParseDom { plan, dom: d });
                         ops.push(Op::BuildTree { dom: d, tree: t });
                         let to = ((tid + 1 + g.wl.usize_below(nthreads - 1)) % nthreads) as u32;
-                        ops.push(Op::SendTree { tree: t, to });
+                        if g.wl.chance(1, 2) {
+                            // keep the tree and hand over a clone: two threads
+                            // render clones of ONE tree at overlapping times
+                            let c = g.slot();
+                            ops.push(Op::CloneTree { from: t, to: c });
+                            ops.push(Op::SendTree { tree: c, to });
+                            let n = g.wl.urange(1, 3);
+                            for _ in 0..n {
+                                g.render(&mut ops, t, false);
+                            }
+                            g.render(&mut ops, t, true);
+                        } else {
+                            ops.push(Op::SendTree { tree: t, to });
+                        }
                     }
                 }
             }
@@ -559,6 +574,7 @@ pub fn generate(run_seed: u64) -> Scenario {
         // one run in sixteen (one in three of those with a second document or
         // configuration) is judged against references from a fresh process
         fresh_reference: if has_variants { run_seed % 3 == 1 } else { run_seed % 16 == 1 },
+        env: gen_env(&mut er),
     }
 }
 
